@@ -497,27 +497,40 @@ def crfStep (_st : Unit) (line : String) (t : Tally) : Except String (Unit × Ta
     let oc := kv "outcome"
     let t := (t.bump "rounds").bump ("outcome_" ++ oc)
     let t := if kv "explicit" == "true" then t.bump "explicit_refreshes" else t.bump "stale_read_refreshes"
+    let superseded := kv "superseded" != "-1" && kv "superseded" != ""
+    -- the FIRST Reload of a round (the one the readers wait behind) has the round's outcome and value `new`; a reload task
+    -- queued by an earlier stale read may run after it has finished (or after a write superseded it): such a later Reload
+    -- returns new+100j (j ≥ 1), so that the judge can tell whose result the cache holds
+    let later (tok : String) : Bool := g "reloads" ≥ 2 && (List.range 60).any (fun j => j ≥ 1 && tok == toString (g "new" + 100 * j))
     if kv "started" != "true" then .error s!"C08/C11: the refresh time of key {g "key"} had passed but no reload was started within 3 s (nothing was handed to the executor, or a task that waits for work queued behind it blocks a bounded executor)"
     else if kv "settled" != "true" then .error s!"C08/C11: the reload of key {g "key"} returned but its call is still registered as in flight"
     else if g "readsother" != 0 then
       .error s!"C11: {g "readsother"} read(s) made before the reload finished did not return the cached value {g "old"} (one returned {kv "sample"}; -1 = absent)"
-    -- (a reload task queued by an earlier stale read may run after the first reload has finished: more than one Reload is
-    -- fine as long as they do not overlap; after a not-found reload such a late task finds the key absent and uses Load)
     else if g "loads" != 0 && oc != "nf" then .error s!"C11: Load was invoked {g "loads"} times for a key that was present (a refresh must use Reload)"
     else if g "reloads" == 0 then .error s!"C11: no Reload was invoked for the refresh of key {g "key"}"
-    else if g "overlap" > 1 then .error s!"C08/C11: {g "overlap"} loader invocations for key {g "key"} were in progress at once (readers arriving while a reload is in flight must not start another)"
+    else if g "overlap" > 1 && !superseded then .error s!"C08/C11: {g "overlap"} loader invocations for key {g "key"} were in progress at once although the key was not written in between (readers arriving while a reload is in flight must not start another)"
     else if g "reloadsaw" != g "old" then .error s!"C11: Reload was given old value {g "reloadsaw"}, the cached value was {g "old"}"
     else
-      let want := if oc == "ok" then toString (g "new") else if oc == "err" then toString (g "old") else "absent"
-      let lateLoad := oc == "nf" && g "loads" != 0 && kv "after" == toString (g "new" + 2)
-      if kv "after" != want && !lateLoad then .error s!"C11: after a reload with outcome {oc} the cache holds {kv "after"} for key {g "key"}, expected {want}"
-      else if oc == "err" && kv "expiry" == "true" && kv "expsame" != "true" then .error s!"C11: a failed reload changed the expiration time of key {g "key"}"
+      let after := kv "after"
+      let okAfter : Bool :=
+        if superseded then after == kv "superseded" || later after
+        else if oc == "ok" then after == toString (g "new") || later after
+        else if oc == "err" then after == toString (g "old") || later after
+        else after == "absent" || later after || (g "loads" != 0 && after == toString (g "new" + 2))
+      if !okAfter then
+        if superseded then .error s!"C09: key {g "key"} was written ({kv "superseded"}) while its reload was in flight (outcome {oc}, value {g "new"}), afterwards the cache holds {after}"
+        else .error s!"C11: after a reload with outcome {oc} (value {g "new"}, cached before: {g "old"}) the cache holds {after} for key {g "key"}"
+      else if oc == "err" && !superseded && after == toString (g "old") && kv "expiry" == "true" && kv "expsame" != "true" then
+        .error s!"C11: a failed reload changed the expiration time of key {g "key"}"
       else if kv "explicit" == "true" then
-        let wantCh := if oc == "ok" then s!"nil:{g "new"}" else oc
+        let ch := kv "chan"
+        let okCh : Bool :=
+          (if oc == "ok" then ch == s!"nil:{g "new"}" else ch == oc)
+          || (List.range 60).any (fun j => j ≥ 1 && ch == s!"nil:{g "new" + 100 * j}")
         if g "results" != 1 then .error s!"C11: the channel of an explicit Refresh delivered {g "results"} results"
-        else if kv "chan" != wantCh then .error s!"C11: the channel of an explicit Refresh delivered {kv "chan"}, the reload's outcome was {wantCh}"
-        else .ok ((), t)
-      else .ok ((), t)
+        else if !okCh then .error s!"C11: the channel of an explicit Refresh delivered {ch}, the reload's outcome was {oc} (value {g "new"})"
+        else .ok ((), if superseded then t.bump "superseded_reloads" else t)
+      else .ok ((), if superseded then t.bump "superseded_reloads" else t)
   | _ => .error "unknown line"
 
 /-! ### conc-resize: a Compute in progress while the table is resized (C15, C02) -/
